@@ -180,6 +180,53 @@ def structure(doc_type, nmembers, commissioning="both"):
     sx.reach("structure-" + doc_type)
 
 
+def imported_roundtrip():
+    """a dictionary that came from a DCF (original texts kept, $NODEID-relative default, node id in the
+    file) survives export + import without an explicit node id"""
+    from refmodels.eds_writer import Doc, Entry, num
+    x = sx.fresh_int("x", 0, 0x7FF)
+    nid = sx.fresh_int("nid", 1, 127)
+    d = Doc()
+    d.section("FileInfo", ["FileName=a.dcf", "EDSVersion=4.0"])
+    d.section("DeviceInfo", ["VendorName=V", "ProductName=P"])
+    d.section("DeviceComissioning", ["NodeID=%s" % num(nid), "Baudrate=125"])
+    d.record("RPDO 1", 0x1400, [Entry("n", 0x1400, 0, 0x05, "ro", default_text="2"),
+                                Entry("COB-ID", 0x1400, 1, 0x07, "rw", default_text="$NODEID+%s" % num(x, "hex"))])
+    d.variable(Entry("Flag", 0x2000, 0, 0x01, "rw", default_text="1"))
+    fp = io.StringIO(d.text())
+    fp.name = "in.dcf"
+    od = sx.mod("canopen").import_od(fp)
+    sx.prove(_is(od[0x1400][1].default, x + nid), "precondition: relative default resolved on the first import",
+             "C14/imported/first-import")
+    od2 = _import(_export(od, "dcf", "stream"), "dcf")
+    tag = "C14/imported"
+    sx.prove(_is(od2.node_id, nid), "node id survives", tag + "/node-id")
+    sx.prove(od2.bitrate == 125000, "bit rate survives", tag + "/bitrate")
+    sx.prove(_is(od2[0x1400][1].default, x + nid), "$NODEID-relative default survives export + import",
+             tag + "/relative-default")
+    sx.prove(od2[0x1400][1].relative is True, "relative flag survives", tag + "/relative-flag")
+    sx.prove(_is(od2[0x2000].default, od[0x2000].default), "BOOLEAN default survives", tag + "/boolean")
+    sx.reach("imported")
+
+
+def booleans(doc_type):
+    """BOOLEAN objects built in code with Python bool values"""
+    od = C.odmod().ObjectDictionary()
+    for i, (dv, pv) in enumerate(((True, False), (False, True), (1, 0))):
+        v = C.mkvar("Flag %d" % i, 0x2100 + i, 0, 0x01, "rw", default=dv)
+        v.value = pv
+        od.add_object(v)
+    od2 = _import(_export(od, doc_type, "stream"), doc_type)
+    for i in range(3):
+        a, b = od[0x2100 + i], od2[0x2100 + i]
+        sx.prove(b.default is not None and bool(b.default) == bool(a.default), "BOOLEAN default survives",
+                 "C14/boolean/%s/default" % doc_type)
+        if doc_type == "dcf":
+            sx.prove(b.value is not None and bool(b.value) == bool(a.value), "BOOLEAN parameter value survives",
+                     "C14/boolean/dcf/value")
+    sx.reach("booleans")
+
+
 def destinations(doc_type):
     """the destination kind does not change the document"""
     od = C.odmod().ObjectDictionary()
@@ -218,6 +265,8 @@ def jobs(tier):
         for n in ((1, 3) if tier == "quick" else (1, 2, 3, 8, 20)):
             out.append(dict(func="structure", params=dict(doc_type=doc, nmembers=n), weight=n))
         out.append(dict(func="destinations", params=dict(doc_type=doc)))
+        out.append(dict(func="booleans", params=dict(doc_type=doc)))
+    out.append(dict(func="imported_roundtrip", params={}))
     for comm in ("node", "rate", "none"):
         out.append(dict(func="structure", params=dict(doc_type="dcf", nmembers=1, commissioning=comm)))
     return out
@@ -240,6 +289,6 @@ META = dict(
     assumptions=[],
     stubs=["int()/hex()/format()/str() with number tokens", "dict/set displays -> SymDict/SymSet", "logging"],
     required_reach=["int-eds", "int-dcf", "dest-stream", "dest-file", "dest-stdout", "negative", "structure-eds",
-                    "structure-dcf", "destinations"],
+                    "structure-dcf", "destinations", "imported", "booleans"],
     limits=dict(quick=dict(), thorough=dict()),
 )
